@@ -32,13 +32,14 @@ VARIABLES scen,    \* [Conns -> scenario]  the environment's script for a connec
           cur,     \* index of the frame being handled
           hpos,    \* position in the handler script of frame cur
           hfail,   \* the handler saw an I/O error from a reply attempt
+          hc,      \* the Continues field of the handler's Call value (owned by the handler: the library never changes it)
           out,     \* reply frames written to the connection
           disp,    \* ghost: dispatches to registered interfaces
           hlog,    \* ghost: result each reply attempt reported to the handler
           cut,     \* ghost: indices of frames cut from the stream, in order
           active   \* the service's connection counter
 
-vars == <<scen, wire, rbuf, cseg, peer, pc, cur, hpos, hfail, out, disp, hlog, cut, active>>
+vars == <<scen, wire, rbuf, cseg, peer, pc, cur, hpos, hfail, hc, out, disp, hlog, cut, active>>
 
 ---------------------------------------------------------------------------
 (* Strings the code takes apart are sequences of one-character strings.    *)
@@ -100,15 +101,22 @@ Decodes(fr) == fr.cls \in {"call", "null"}
 Frame(f, kind, cont, err, arg, tok) ==
   [f |-> f, kind |-> kind, continues |-> cont, err |-> err, arg |-> arg, tok |-> tok]
 
-Attempt(fi, call, st) ==
+(* Call.Continues is a field the handler owns: "cont" sets it, "final" clears it, "same" replies with *)
+(* whatever it currently is; the library never changes it (not even when it refuses a reply).        *)
+ContOf(st, h) == CASE st.k = "cont" -> TRUE [] st.k = "final" -> FALSE [] OTHER -> h
+RECURSIVE HcAt(_, _)
+HcAt(script, k) == IF k <= 1 THEN FALSE ELSE ContOf(script[k - 1], HcAt(script, k - 1))   \* the field before step k
+ReplyKinds == {"cont", "final", "same"}
+Attempt(fi, call, st, h) ==
   LET none(res) == [w |-> <<>>, res |-> res]
       put(fr)   == IF call.oneway THEN none("ok") ELSE [w |-> <<fr>>, res |-> "ok"] IN
-  CASE st.k = "cont"  -> IF ~call.more THEN none("refused")
-                         ELSE put(Frame(fi, "reply", TRUE, "", "", st.tok))
-    [] st.k = "final" -> put(Frame(fi, "reply", FALSE, "", "", st.tok))
+  CASE st.k \in ReplyKinds ->
+         IF ContOf(st, h) THEN (IF ~call.more THEN none("refused") ELSE put(Frame(fi, "reply", TRUE, "", "", st.tok)))
+         ELSE put(Frame(fi, "reply", FALSE, "", "", st.tok))
     [] st.k = "err"   -> IF ~NameOK(st.name) THEN none("refused")
                          ELSE put(Frame(fi, "error", FALSE, Join(st.name), "", st.tok))
     [] st.k = "std"   -> put(Frame(fi, "error", FALSE, StdErr(st.std), "a", 0))
+    [] st.k = "wait"  -> none("ok")        \* the handler waits for the other connections; no reply attempt
 
 (* built-in answers: a call with pseudo script of one std/final step *)
 BuiltinReply(fi, call, r) ==
@@ -145,6 +153,7 @@ InitWith(S) ==
   /\ cur = [c \in Conns |-> 0]
   /\ hpos = [c \in Conns |-> 0]
   /\ hfail = [c \in Conns |-> FALSE]
+  /\ hc = [c \in Conns |-> FALSE]
   /\ out = [c \in Conns |-> <<>>]
   /\ disp = [c \in Conns |-> <<>>]
   /\ hlog = [c \in Conns |-> <<>>]
@@ -162,7 +171,7 @@ ClientWrite(c) ==
          S == Symbols(scen[c].frames) IN
      wire' = [wire EXCEPT ![c] = @ \o SubSeq(S, a + 1, a + n)]
   /\ cseg' = [cseg EXCEPT ![c] = @ + 1]
-  /\ UNCHANGED <<scen, rbuf, peer, pc, cur, hpos, hfail, out, disp, hlog, cut, active>>
+  /\ UNCHANGED <<scen, rbuf, peer, pc, cur, hpos, hfail, hc, out, disp, hlog, cut, active>>
 
 (* the client ends after its last write - or earlier, when a write failed  *)
 (* because the service had already closed the connection                  *)
@@ -170,7 +179,7 @@ ClientEnd(c) ==
   /\ peer[c] = "open"
   /\ cseg[c] = Len(scen[c].segs) \/ pc[c] \in {"closed", "released"}
   /\ peer' = [peer EXCEPT ![c] = IF scen[c].endhow = "abort" THEN "gone" ELSE "halfclosed"]
-  /\ UNCHANGED <<scen, wire, rbuf, cseg, pc, cur, hpos, hfail, out, disp, hlog, cut, active>>
+  /\ UNCHANGED <<scen, wire, rbuf, cseg, pc, cur, hpos, hfail, hc, out, disp, hlog, cut, active>>
 
 ---------------------------------------------------------------------------
 (* Service *)
@@ -186,7 +195,7 @@ SvcFill(c) ==
   /\ \E n \in 1..Len(wire[c]) :
        /\ rbuf' = [rbuf EXCEPT ![c] = @ \o SubSeq(wire[c], 1, n)]
        /\ wire' = [wire EXCEPT ![c] = SubSeq(@, n + 1, Len(@))]
-  /\ UNCHANGED <<scen, cseg, peer, pc, cur, hpos, hfail, out, disp, hlog, cut, active>>
+  /\ UNCHANGED <<scen, cseg, peer, pc, cur, hpos, hfail, hc, out, disp, hlog, cut, active>>
 
 (* Result of writing built-in reply frames w: if the peer is gone the write *)
 (* may fail (EPIPE) => HandleMessage returns the error => close.           *)
@@ -202,11 +211,12 @@ SvcFrame(c) ==
      /\ cut' = [cut EXCEPT ![c] = Append(@, [f |-> fi, body |-> SubSeq(rbuf[c], 1, p - 1)])]
      /\ IF ~Decodes(fr)
         THEN /\ pc' = [pc EXCEPT ![c] = "closing"]
-             /\ UNCHANGED <<cur, hpos, out, disp>>
+             /\ UNCHANGED <<cur, hpos, hc, out, disp>>
         ELSE IF r.k = "Dispatch"
         THEN /\ pc' = [pc EXCEPT ![c] = "handler"]
              /\ cur' = [cur EXCEPT ![c] = fi]
              /\ hpos' = [hpos EXCEPT ![c] = 1]
+             /\ hc' = [hc EXCEPT ![c] = FALSE]           \* every dispatch gets a fresh Call value
              /\ disp' = [disp EXCEPT ![c] = Append(@, [f |-> fi, iface |-> r.iface, meth |-> r.meth,
                                                       more |-> call.more, oneway |-> call.oneway,
                                                       upgrade |-> call.upgrade, tok |-> call.tok])]
@@ -214,10 +224,10 @@ SvcFrame(c) ==
         ELSE LET w == BuiltinReply(fi, call, r) IN
              \/ /\ out' = [out EXCEPT ![c] = @ \o w]
                 /\ pc' = [pc EXCEPT ![c] = "reading"]
-                /\ UNCHANGED <<cur, hpos, disp>>
+                /\ UNCHANGED <<cur, hpos, hc, disp>>
              \/ /\ peer[c] = "gone" /\ w # <<>>        \* write fails
                 /\ pc' = [pc EXCEPT ![c] = "closing"]
-                /\ UNCHANGED <<cur, hpos, out, disp>>
+                /\ UNCHANGED <<cur, hpos, hc, out, disp>>
   /\ UNCHANGED <<scen, wire, cseg, peer, hfail, hlog, active>>
 
 SvcEOF(c) ==
@@ -226,22 +236,25 @@ SvcEOF(c) ==
   /\ wire[c] = <<>>
   /\ peer[c] # "open"
   /\ pc' = [pc EXCEPT ![c] = "closing"]
-  /\ UNCHANGED <<scen, wire, rbuf, cseg, peer, cur, hpos, hfail, out, disp, hlog, cut, active>>
+  /\ UNCHANGED <<scen, wire, rbuf, cseg, peer, cur, hpos, hfail, hc, out, disp, hlog, cut, active>>
 
 HStep(c) ==
   /\ pc[c] = "handler"
   /\ ~hfail[c]
   /\ LET call == scen[c].frames[cur[c]] IN
      /\ hpos[c] <= Len(call.script)
-     /\ LET a == Attempt(cur[c], call, call.script[hpos[c]]) IN
+     \* a handler that waits for the other connections' clients proceeds once they have ended their streams
+     /\ (call.script[hpos[c]].k = "wait" => \A d \in Conns \ {c} : peer[d] # "open")
+     /\ LET a == Attempt(cur[c], call, call.script[hpos[c]], hc[c]) IN
         \/ /\ out' = [out EXCEPT ![c] = @ \o a.w]
            /\ hlog' = [hlog EXCEPT ![c] = Append(@, [f |-> cur[c], k |-> hpos[c], res |-> a.res])]
            /\ hpos' = [hpos EXCEPT ![c] = @ + 1]
+           /\ hc' = [hc EXCEPT ![c] = ContOf(call.script[hpos[c]], @)]
            /\ UNCHANGED hfail
         \/ /\ peer[c] = "gone" /\ a.w # <<>>           \* write fails, handler is told
            /\ hlog' = [hlog EXCEPT ![c] = Append(@, [f |-> cur[c], k |-> hpos[c], res |-> "ioerr"])]
            /\ hfail' = [hfail EXCEPT ![c] = TRUE]
-           /\ UNCHANGED <<out, hpos>>
+           /\ UNCHANGED <<out, hpos, hc>>
   /\ UNCHANGED <<scen, wire, rbuf, cseg, peer, pc, cur, disp, cut, active>>
 
 (* the scripted handler returns: the I/O error it saw, else its scripted value *)
@@ -252,18 +265,18 @@ HReturn(c) ==
   /\ hfail[c] \/ hpos[c] > Len(scen[c].frames[cur[c]].script)
   /\ pc' = [pc EXCEPT ![c] = IF HRetVal(c) = "nil" THEN "reading" ELSE "closing"]
   /\ hfail' = [hfail EXCEPT ![c] = FALSE]
-  /\ UNCHANGED <<scen, wire, rbuf, cseg, peer, cur, hpos, out, disp, hlog, cut, active>>
+  /\ UNCHANGED <<scen, wire, rbuf, cseg, peer, cur, hpos, hc, out, disp, hlog, cut, active>>
 
 SvcCloseConn(c) ==
   /\ pc[c] = "closing"
   /\ pc' = [pc EXCEPT ![c] = "closed"]
-  /\ UNCHANGED <<scen, wire, rbuf, cseg, peer, cur, hpos, hfail, out, disp, hlog, cut, active>>
+  /\ UNCHANGED <<scen, wire, rbuf, cseg, peer, cur, hpos, hfail, hc, out, disp, hlog, cut, active>>
 
 SvcRelease(c) ==
   /\ pc[c] = "closed"
   /\ pc' = [pc EXCEPT ![c] = "released"]
   /\ active' = active - 1
-  /\ UNCHANGED <<scen, wire, rbuf, cseg, peer, cur, hpos, hfail, out, disp, hlog, cut>>
+  /\ UNCHANGED <<scen, wire, rbuf, cseg, peer, cur, hpos, hfail, hc, out, disp, hlog, cut>>
 
 SvcNext(c) == SvcFill(c) \/ SvcFrame(c) \/ SvcEOF(c) \/ HStep(c) \/ HReturn(c)
               \/ SvcCloseConn(c) \/ SvcRelease(c)
@@ -280,10 +293,10 @@ FrameOut(fi, fr) ==       \* <<replies, dispatched?, ends connection?>> for one 
   ELSE LET call == AsCall(fr)
            r == Route(call.target) IN
        IF r.k # "Dispatch" THEN [w |-> BuiltinReply(fi, call, r), d |-> <<>>, stop |-> FALSE]
-       ELSE [w |-> FlattenSeq([k \in 1..Len(call.script) |-> Attempt(fi, call, call.script[k]).w]),
+       ELSE [w |-> FlattenSeq([k \in 1..Len(call.script) |-> Attempt(fi, call, call.script[k], HcAt(call.script, k)).w]),
              d |-> <<[f |-> fi, iface |-> r.iface, meth |-> r.meth, more |-> call.more,
                       oneway |-> call.oneway, upgrade |-> call.upgrade, tok |-> call.tok]>>,
-             stop |-> call.ret = "err"]
+             stop |-> call.ret # "nil"]
 
 RECURSIVE SemFrom(_, _, _)
 SemFrom(frames, i, n) ==   \* frames i..n are complete (NUL written)
@@ -323,11 +336,12 @@ ContinuesOnlyMore == \A c \in Conns : \A i \in 1..Len(out[c]) :
 ArrivalOrder == \A c \in Conns : \A i, j \in 1..Len(out[c]) : i < j => out[c][i].f <= out[c][j].f
 NoOverlap == \A c \in Conns : pc[c] = "handler" => cur[c] = disp[c][Len(disp[c])].f
 NoDispatchAfterError ==
-  \A c \in Conns : \A i \in 1..(Len(disp[c]) - 1) : scen[c].frames[disp[c][i].f].ret # "err"
+  \A c \in Conns : \A i \in 1..(Len(disp[c]) - 1) : scen[c].frames[disp[c][i].f].ret = "nil"
 RefusedReported == \A c \in Conns : \A i \in 1..Len(hlog[c]) :
      LET call == scen[c].frames[hlog[c][i].f]
          st == call.script[hlog[c][i].k] IN
-     hlog[c][i].res = "refused" <=> ((st.k = "cont" /\ ~call.more) \/ (st.k = "err" /\ ~NameOK(st.name)))
+     hlog[c][i].res = "refused" <=> ((st.k \in ReplyKinds /\ ContOf(st, HcAt(call.script, hlog[c][i].k)) /\ ~call.more)
+                                     \/ (st.k = "err" /\ ~NameOK(st.name)))
 
 (* C02: the frames the service cuts are the frames the client wrote, whole *)
 SegmentationIndependence ==
